@@ -847,6 +847,12 @@ class PopulationSplit(DiscreteDemographicEvent):
         if isinstance(derived, str):
             derived = [derived]
 
+        if time < 0:
+            raise ValueError('All times must not be negative.')
+
+        if multiplier < 0:
+            raise ValueError('Migration rates must not be negative at all times.')
+
         #: Time of the split.
         self.start_time: float = time
 
@@ -923,6 +929,9 @@ class DiscretizedRateChange(DiscretizedDemographicEvent):
         if pop is None and (source is None or dest is None):
             raise ValueError('Either pop or source_pop and dest_pop must be specified.')
 
+        if start_time < 0:
+            raise ValueError('All times must not be negative.')
+
         #: Population name.
         self.pop: str | None = pop
 
@@ -978,8 +987,14 @@ class DiscretizedRateChange(DiscretizedDemographicEvent):
             rate = (rate_start + rate_end) / 2
 
             if self.pop is None:
+                if rate < 0:
+                    raise ValueError('Migration rates must not be negative at all times.')
+
                 epoch.migration_rates[(self.source_pop, self.dest_pop)] = rate
             else:
+                if rate <= 0:
+                    raise ValueError('Population sizes must be positive at all times.')
+
                 epoch.pop_sizes[self.pop] = rate
 
 
